@@ -301,7 +301,12 @@ def run_shard(ctx, spec):
         codes.extend(['100.0cm', '60H100.0cm', '100H84.0cm8.50m13.00m', 'DT1.50K', 'DT 1.5 kg', 'SP7.260KG', 'sst', 'SST', 'SWT', 'swt',
                       'WT9.08kg', 'WT15.88K', 'JT800g', 'JT 800 g', 'OT150 g', 'SP0.K', 'SP0.0K', 'h1', 'l9', 'dec', '4X100', '4xrelay',
                       '4xsmr', 'T30', 't5', '24hr', '1HW', 'mile', 'Mar', 'hmw', 'xc', '5k', '5kw', '10.5K', '2MILE', '100 y', '100\tH',
-                      '110 H 106.7cm 9.14m 13.72m', 'LH', 'sh', 'SC', '3mt', 'SPB', 'BAL'])
+                      '110 H 106.7cm 9.14m 13.72m', 'LH', 'sh', 'SC', '3mt', 'SPB', 'BAL',
+                      # distances that have a name of their own (marathon, half marathon, the mile and its multiples, common road
+                      # distances): as track codes they stay what they are
+                      '42195', '42195W', '42195 w', '21097', '21098', '21098W', '21097.5', '1609', '1609W', '1609 w', '1609.344', '3218', '3219',
+                      '5000', '5000W', '10000', '10000w', '20000W', '50000W', '26.2M', '13.1M', '1M', '1.0M', '42.195K', '42.2K', '21.1K',
+                      '1000', '1500', '3000', '100000', '1852', '1760Y', '880Y', '440y', '220y'])
     for c in codes:
         if mon.check(c) is None:
             attach.call(mon.N, c)
@@ -329,6 +334,12 @@ def run_shard(ctx, spec):
         for m in relang.lookalikes(c, rnd, 3):
             attach.call(mon.N, m)
             ctx.count('eval.lookalike-spelling')
+    for c in codes[::9]:
+        if mon.check(c) is not None:
+            for inv in ('\ufeff', '\u200b', '\u00ad', '\u200e', '\u2060', '\x00', '\x7f'):
+                attach.call(mon.N, inv + c)
+                attach.call(mon.N, c + inv)
+                ctx.count('eval.invisible-character-around-a-code')
     for s in ['\u00b2', '10\u00b2', '\u00b9\u2070\u2070', '\u2460', '4\u2070\u2070', '\u2167', '\u00bd', '\u0661\u0660\u0660', '\uff11\uff10\uff10',
               '100%', '%s', '4x%d', 'DT%(w)s', '{0}', 'SP{}K', '\\', '$1', 'HJ%', '%', '100{', 'JT}', '(HJ', '[SP]', '100|200',
               '', ' ', 'X', '100X', 'H0', 'L0', 'DTT', '4x', 'x100', '100 m', 'HJJ', 'SP7.26KGG', 'JT900', 'None', '\n', 'DEC\n\n']:
